@@ -6,6 +6,7 @@ from .. import core
 from ..core import enc, dec
 from .. import dbio
 from . import gen_db as G
+from . import handle_common as H
 
 MC_CFG = """CONSTANT NF = %d
 CONSTANT WordNA = {}
@@ -284,12 +285,16 @@ def run(ctx):
                 break
         ctx.count(("hist", h["init"]["feats"], h["steps"]), True)
     ctx.traces += len(ch)
+    # the handle as a state machine: every history of MC_Handle on one live handle, this property's battery after every step
+    H.check(ctx, "lookup", 4 if thorough else 3, 20000 if thorough else 1200)
     ctx.assumptions += ["inputs are Feature objects (no text parsing involved); ':field:' specs are exercised with text columns",
                         "callables are a fixed menu mirrored by Python functions (none, const, autoincrement:seqid, Name attribute, type:start)"]
 
 
 def replay(ctx, rec):
     c = rec["case"]
+    if "raw_handle" in c:
+        return H.replay(ctx, rec, "lookup")
     if "steps" in c:
         h = {"init": c["init"], "steps": c["steps"], "rel": False}
         e = G.model(ctx, [h], workers=1)[0]
